@@ -23,13 +23,14 @@ MANIFEST = {
 }
 
 FORBIDDEN_NAMES = ["sum", "map", "len", "inputs", "constants", "if", "then", "else", "true", "false", "null",
-                   "and", "or"]
+                   "and", "or", "inf", "infinity"]
 
 # the session alphabet on names a, b, f (+ helpers).  Every entry parses on its own.
 ALPHABET = [
     "a = 1", "b = 2", "a = 3", "f = x => x + 1", "f = x => a", "b = f", "a = {g: f}", "b = a.g",
     "do {\n  a = 10\n  loc1 = a\n  return loc1 + 1\n}", "[b = 4, b]", "a = [a = 1, 2]", "output a", "output b = 5",
     "f(1)", "(p1 => p1 + 1)(7)", "1 + \"x\"", "nosuch", "sum = 1", "inputs = 5", "constants = 1", "typeof = 1",
+    "inf = 5", "infinity = a", "[inf, infinity, {inf}]",
     "a = do {\n  h = n => if n < 1 then 0 else n + h(n - 1)\n  return {g: h}\n}",
     "f = do {\n  k = n => if n < 1 then 0 else n + k(n - 1)\n  return k\n}",
     "do {\n  inputs = {n: 9}\n  return #n\n}", "[1, 2] via (p2 => b = p2)", "f = (a) => a * 2",
